@@ -27,6 +27,7 @@ import (
 
 	"github.com/rulego/streamsql/types"
 	"github.com/rulego/streamsql/utils/cast"
+	"github.com/rulego/streamsql/utils/verifhook"
 )
 
 // Ensure SessionWindow struct implements Window interface
@@ -147,6 +148,7 @@ func NewSessionWindow(config types.WindowConfig) (*SessionWindow, error) {
 
 // Add adds data to session window
 func (sw *SessionWindow) Add(data any) {
+	verifhook.Point("session.add")
 	// Lock to ensure thread safety
 	sw.mu.Lock()
 	defer sw.mu.Unlock()
@@ -387,6 +389,7 @@ func (sw *SessionWindow) checkAndTriggerSessions(watermarkTime time.Time) {
 	sw.closeExpiredSessions(watermarkTime)
 	callback := sw.callback
 	sw.mu.Unlock()
+	verifhook.Point("session.trigger.unlocked")
 
 	sw.sendResults(resultsToSend, callback)
 }
@@ -616,6 +619,7 @@ func (sw *SessionWindow) triggerLateUpdateLocked(s *session) {
 
 	// Release lock before calling callback and sending to channel to avoid blocking
 	sw.mu.Unlock()
+	verifhook.Point("session.late.unlocked")
 
 	if callback != nil {
 		callback(resultData)
